@@ -33,8 +33,8 @@ structure St where
   mgr : Option Nat := none
   ghost : List GRec := []          -- oldest first
   flips : List Nat := []           -- currently flipped bit positions of the newest segment
-  needVerify : Bool := false       -- a cut happened and VerifyDir has not run since
-  loose : Bool := false            -- records were appended to an unverified cut log: no claim
+  needVerify : Bool := false       -- a cut tore a record and VerifyDir has not run since
+  loose : Bool := false            -- records were appended to an unverified torn log: no claim (replay, verify) from then on
   buf : Bytes := []
   ents : List GEnt := []           -- oldest first
   bflips : List Nat := []          -- currently flipped bit positions of `buf`
@@ -181,8 +181,11 @@ def step (st : St) (toks : List String) : St × String :=
       let hid := headId st.segs
       let segs' := cutHead n st.segs
       let ghost' := st.ghost.filter (fun g => g.seg ≠ hid || g.endOff ≤ n)
+      -- the cut tears a record iff it does not land on a record boundary of the ghost log
+      let boundary := (ghost'.filter (fun g => g.seg = hid)).foldl (fun m g => max m g.endOff) 0
+      let torn := n ≠ boundary
       ({ st with segs := segs', ghost := ghost', flips := st.flips.filter (fun b => b / 8 < n),
-                 needVerify := true }, s!"sz={n}\t*")
+                 needVerify := st.needVerify || torn }, s!"sz={n}\t*")
     | _, _ => (st, "bad-op")
   | ["w.flip", b] =>
     match natOf? b, st.mgr with
@@ -199,7 +202,10 @@ def step (st : St) (toks : List String) : St × String :=
     | none =>
       let r := verifySegs st.c crc32c st.segs
       ({ st with segs := r.1, needVerify := if r.2 == .ok then false else st.needVerify },
-       statusStr r.2 ++ "\t" ++ (if st.flips.isEmpty then "ok" else "*"))
+       -- after records were appended behind an unverified torn tail (wal.Open without
+       -- wal.VerifyDir: outside the recovery protocol of db.go) the segment holds garbage
+       -- framing: no claim about VerifyDir either
+       statusStr r.2 ++ "\t" ++ (if st.flips.isEmpty && !st.loose then "ok" else "*"))
     | some _ => (st, "bad-op")
   | ["w.segs"] =>
     (st, join (st.segs.reverse.map (fun s => s!"{s.id}:{s.data.length}")) ++ "\t*")
